@@ -116,10 +116,6 @@ def shapes(ctx):
                         witness="returns %s result arrays for %d unknowns (%s)" % (nres, nun, names))
             ctx.decided("%s/return#%d/filters" % (fn, k), "ensures", nf == nun,
                         witness="returns %s filter entries for %d unknowns" % (nf, nun))
-            if isinstance(names, list) and nres == 2 * nun:
-                ok = all(names[2 * j + 1].endswith("_old") for j in range(nun))
-                ctx.decided("%s/return#%d/new-old-order" % (fn, k), "ensures", ok,
-                            witness="result list is not (new, old) pairs: %s" % names)
     # the "old" member of every (new, old) pair is a SNAPSHOT of the unknown taken before the Newton update: its
     # defining expression must create a fresh array (A4 alias rules: `.copy()`, or a read through an index ARRAY;
     # a basic slice `pit[:, COL]` is a view that would follow the update and make the measured step 0), it must be the
